@@ -139,6 +139,14 @@ func runOne(pc *propCheck, shared *Prog, tier, repo, verif string, seed int, key
 	}
 	if keysOnly {
 		seen := map[string]bool{}
+		// keys of recorded findings are not news: a mutant counts as detected only through another key
+		if known, err := loadKnown(verif + "/known_findings.json"); err == nil {
+			for _, k := range known {
+				if k.Property == pc.id && k.Status == "known" {
+					seen[k.Key] = true
+				}
+			}
+		}
 		for _, o := range r.Obs {
 			if o.Status == "violated" && !seen[o.Key] {
 				seen[o.Key] = true
